@@ -453,6 +453,109 @@ theorem closure_passes_bounded (g : GsubT) (reachable : List Nat) (fuelI : Nat)
   obtain ⟨r, hr, hp⟩ := closureLoop_terminates g reachable fuelI hfuel _ prev c hG hF ht (Nat.le_refl _)
   exact ⟨r, hr, by intro h; subst h; exact hp⟩
 
+/-! ## lookup subtables -/
+
+/-- **`SubstitutionLookup::subtables()` + `Subtables::iter` yield exactly `sub_table_count` items** (each
+`Ok` or an error value), for plain and extension lookups alike, and the offsets they are read from lie
+inside the lookup table: the iterator walks the offset array once. -/
+theorem lookup_subtables_count (d : List Nat) (p : Nat) (lk : Lookup) (subs : List (PR Sub))
+    (h : lookupAt d p = .ok lk) (h2 : lk = .ok subs) :
+    subs.length = HandRead.beAt d (p + 4) 2 ∧ p + 6 + 2 * subs.length ≤ d.length := by
+  subst h2
+  unfold lookupAt at h
+  simp only [bind, Except.bind, pure, Except.pure] at h
+  cases h1 : rd16 d p with
+  | error e => simp [h1] at h
+  | ok ty =>
+    cases h2 : rd16 d (p + 2) with
+    | error e => simp [h1, h2] at h
+    | ok flag =>
+      cases h3 : rd16 d (p + 4) with
+      | error e => simp [h1, h2, h3] at h
+      | ok n =>
+        have hn := rd16_ok h3
+        simp only [h1, h2, h3] at h
+        cases h4 : need d p (6 + 2 * n + if flag / 16 % 2 = 1 then 2 else 0) with
+        | error e => simp [h4] at h
+        | ok u =>
+          have hlen : p + (6 + 2 * n) ≤ d.length := by
+            have := need_ok h4
+            omega
+          simp only [h4] at h
+          split at h
+          · cases h
+          · split at h
+            · injection h with h
+              injection h with h
+              subst h
+              simp only [List.length_map, offsets16, u16sAt, List.length_range]
+              exact ⟨hn.1, by omega⟩
+            · injection h with h
+              -- extension lookups
+              revert h
+              cases hm : (u16sAt d (p + 6) n) with
+              | nil => intro h; simp at h
+              | cons off rest =>
+                simp only []
+                intro h
+                cases hf : resolveAt d p off with
+                | error e => simp [hf] at h
+                | ok first =>
+                  simp only [hf] at h
+                  cases hnd : need d first 8 with
+                  | error e => simp [hnd] at h
+                  | ok u2 =>
+                    simp only [hnd] at h
+                    split at h
+                    · cases h
+                    · injection h with h
+                      subst h
+                      simp only [List.length_map, offsets16, u16sAt, List.length_range]
+                      exact ⟨hn.1, by omega⟩
+
+/-! ## `collect_features` -/
+
+/-- **`Gsub/Gpos::collect_features` never panics and returns only indices of wanted features**, for
+every script list (unsorted tags, scripts / language systems shared or repeated, any error value), any
+`table_head` and all tag-set arguments, plain or inverted: the `u16` counters `script_count`,
+`langsys_count` are tested against `MAX_SCRIPTS` / `MAX_LANGSYS` BEFORE `+= 1` and so stay ≤ 501 / 2001;
+the feature counter uses `overflowing_add`; `script_records[idx]` / `lang_sys_records[idx]` take an
+index the binary search just returned.  All loops run once over their record / tag lists (structural
+recursion), so the work is linear in the table — plus the explicit limits. -/
+theorem collect_features_safe (head : Nat) (featureTags : List Nat) (recs : List (Nat × PR ScriptT))
+    (scripts languages features : TagSet) :
+    collectFeatures head featureTags recs scripts languages features ≠ .trap ∧
+    ∀ out, collectFeatures head featureTags recs scripts languages features = .val (.ok out) →
+      ∀ i ∈ out, ∃ j, j < featureTags.length ∧ i = j % 65536 ∧ features.contains (featureTags.getD j 0) = true := by
+  unfold collectFeatures
+  simp only []
+  have h0 : CFInv (filter0 featureTags features) ⟨0, 0, 0, [], [], [], filter0 featureTags features⟩ :=
+    ⟨by simp, by simp, by simp, fun i hi => hi⟩
+  have hs : RSafe (filter0 featureTags features)
+      (if scripts.inv = true then scriptsInv head scripts languages ⟨0, 0, 0, [], [], [], filter0 featureTags features⟩ recs
+       else scriptsSel head languages recs ⟨0, 0, 0, [], [], [], filter0 featureTags features⟩ scripts.xs) := by
+    split
+    · exact scriptsInv_safe _ head scripts languages recs _ h0
+    · exact scriptsSel_safe _ head languages recs _ _ h0
+  unfold filter0 at hs h0
+  revert hs
+  generalize (if scripts.inv = true then _ else _ : RR CF) = r
+  intro hs
+  cases r with
+  | trap => exact absurd hs (by simp [RSafe])
+  | val x =>
+    simp only [Res.bind]
+    refine ⟨by simp, fun out ho => ?_⟩
+    injection ho with ho
+    cases x with
+    | error e => simp [Except.map] at ho
+    | ok c =>
+      simp only [Except.map] at ho
+      injection ho with ho
+      subst ho
+      intro i hi
+      exact filter0_lt featureTags features i (hs.2.2.1 i hi)
+
 /-! ## non-vacuity -/
 
 /-- the spec examples of layout.rs -/
@@ -499,5 +602,11 @@ example : Good ⟨[1, 5], none, [], [(0, some [5])]⟩ := by
   intro t ht a ha
   simp at ht; subst ht; injection ha with ha; subst ha
   exact ⟨by simp, by simp⟩
+
+/-- one script, default language system with required feature 1 and features [0, 5]; wanted: everything -/
+example : (match collectFeatures 0 [tg 'l' 'i' 'g' 'a', tg 'k' 'e' 'r' 'n']
+      [(tg 'l' 'a' 't' 'n', .ok ⟨10, some (.ok ⟨20, 1, [0, 5]⟩), []⟩)] ⟨true, []⟩ ⟨true, []⟩ ⟨true, []⟩ with
+    | .val (.ok out) => out == [0, 1]
+    | _ => false) = true := by decide +kernel
 
 end FontVerif.C01HandLayout
